@@ -23,6 +23,9 @@ only — `backend.TLS.HasTLSAuth` of the backends of a host asking for a client 
   loses the client-certificate headers); `deriveFirst` is quiet on the same input.
 * `orders_agree_without_derived` — without a host that gives a derived attribute both orders compute the same:
   the defect is invisible to worlds without such hosts.
+* `full_sync_every_host_added`, `full_sync_reloads`, `full_sync_reloads_uncommitted`, `full_sync_noop_reloads` — the
+  KNOWN FINDING `reload-on-noop:full-sync-rebuilds-every-host`: a full sync starts from `config.Clear()`, Hosts keeps
+  no `ItemsDel()` and the committed global is dropped, so a no-op notification of a full-sync kind reloads.
 * `syncConfig_before_shrink` — tie to the code: in the REGENERATED translation of `instance.HAProxyUpdate`
   (`Generated/CodeC12.lean`) every update of a configured instance starts with `SyncConfig` and then `Shrink`,
   for every oracle of the writes / the dynamic updater and every instance state.
@@ -344,6 +347,42 @@ theorem orders_agree_without_derived (s : Store) (r : Recr) (h : ∀ x ∈ r.hos
   intro x hx id
   simp only [shrink, enter, List.mem_filter] at hx
   exact h x hx.1 id
+
+/-! ### full syncs: a known finding
+
+A notification of a full-sync kind (IngressClass, Gateway-API objects) makes the converters rebuild everything from
+`config.Clear()`.  `Backends` survives `Clear` (the committed items become `ItemsDel()`, unchanged backends
+shrink), `Hosts` does not and the committed global is dropped: HAProxy reloads although the rebuilt configuration is
+the committed one.  Full strength (what the property demands, and what `noop_derive_then_shrink_quiet` gives for a
+PARTIAL sync that re-creates every item): `NoOp' s r → reloadDecision _ (cycleFull s r) = false`.  It does not hold: -/
+
+/-- every rebuilt host stays in `ItemsAdd()` after a full sync, whatever was committed -/
+theorem full_sync_every_host_added (s : Store) (r : Recr) : (cycleFull s r).hAdd = r.hosts := by
+  simp [cycleFull, shrink, derive, enterFull]
+
+/-- … so a full sync with at least one host asks for a reload even if the committed state were kept … -/
+theorem full_sync_reloads (s : Store) (r : Recr) (h : r.hosts ≠ []) (committed : Bool) :
+    reloadDecision committed (cycleFull s r) = true := by
+  have hadd := full_sync_every_host_added s r
+  have hdel : (cycleFull s r).hDel = [] := by simp [cycleFull, shrink, derive, enterFull]
+  cases hr : r.hosts with
+  | nil => exact absurd hr h
+  | cons x xs =>
+    simp [reloadDecision, outsideDiff, hadd, hdel, hr]
+
+/-- … and it always does, since `Clear` drops the committed state -/
+theorem full_sync_reloads_uncommitted (s : Store) (r : Recr) : reloadDecision false (cycleFull s r) = true := by
+  simp [reloadDecision]
+
+/-- kernel-checked witness of the known finding `reload-on-noop:full-sync-rebuilds-every-host`: the store of one host
+and one backend rebuilt identically by a full sync — the backend shrinks (nothing to update), the host is reported
+as changed, the update reloads; the same re-creation as a PARTIAL sync is quiet -/
+theorem full_sync_noop_reloads :
+    changedBacks (cycleFull exStore exRecr) = [] ∧ changedHosts (cycleFull exStore exRecr) = ["a.local"] ∧
+    outsideDiff (cycleFull exStore exRecr) = true ∧ reloadDecision false (cycleFull exStore exRecr) = true ∧
+    (commit (cycleFull exStore exRecr)).backs = exStore.backs ∧ (commit (cycleFull exStore exRecr)).hosts = exStore.hosts ∧
+    reloadDecision true (cycle .deriveFirst exStore exRecr) = false := by
+  decide +kernel
 
 /-! ### tie to the code: the statement order of `instance.HAProxyUpdate` -/
 
